@@ -133,3 +133,24 @@ impl StreamMetadata {
         }
     }
 }
+
+#[cfg(feature = "verif-hooks")]
+pub mod verif_hooks {
+    //! Verification hook: the uptime sessions created on this thread start with, so that even
+    //! the clock readings made inside the session constructors are deterministic.
+    use std::cell::Cell;
+
+    thread_local! {
+        static INITIAL_UPTIME_MS: Cell<Option<u64>> = Cell::new(None);
+    }
+
+    /// Sessions created on this thread after this call read exactly this uptime (in milliseconds)
+    /// from their clock until it is changed on the instance; `None` restores the real clock.
+    pub fn set_initial_uptime_ms(uptime_ms: Option<u64>) {
+        INITIAL_UPTIME_MS.with(|x| x.set(uptime_ms));
+    }
+
+    pub(crate) fn initial_uptime_ms() -> Option<u64> {
+        INITIAL_UPTIME_MS.with(|x| x.get())
+    }
+}
